@@ -245,7 +245,36 @@ func parse(line string) (n, m int, pred, placement string) {
 	return n, m, f[2], f[3]
 }
 
+// exec runs one case under its own guard: this property has no model driver to disagree with,
+// so a panic or a hang of the code under test must itself be reported as a violation (the
+// search never panics and always terminates on valid arguments).
 func exec(line string) hx.Result {
+	limit := 3 * time.Minute
+	if f := strings.Fields(line); len(f) > 0 && f[0] != "selftest" {
+		if n, _ := strconv.Atoi(f[0]); n >= 10 {
+			limit = 19 * time.Minute
+		}
+	}
+	ch := make(chan hx.Result, 1)
+	go func() {
+		defer func() {
+			if e := recover(); e != nil {
+				ch <- hx.Result{Obs: "panic", Buckets: []string{"outcome:panic"},
+					Viol: []hx.OracleViolation{hx.Fail("C03:panic", "case %q: the search panicked: %v", line, e)}}
+			}
+		}()
+		ch <- exec1(line)
+	}()
+	select {
+	case r := <-ch:
+		return r
+	case <-time.After(limit):
+		return hx.Result{Obs: "hang", Buckets: []string{"outcome:hang"},
+			Viol: []hx.OracleViolation{hx.Fail("C03:hang", "case %q: not finished after %v", line, limit)}}
+	}
+}
+
+func exec1(line string) hx.Result {
 	if strings.HasPrefix(line, "selftest") {
 		return selftest(line)
 	}
@@ -401,7 +430,7 @@ func selftest(line string) hx.Result {
 				fail("AutCount(%x)=%d, brute force %d", x, gx.AutCount(&g), aut)
 			}
 		}
-		for _, pr := range gx.Preds {
+		for _, pr := range append(append([]string{}, gx.Preds...), gx.ExtremePreds...) {
 			b := gx.Bad(pr, &g)
 			if gx.Bad(pr, &h) != b {
 				fail("predicate %s not relabelling-invariant on %x", pr, x)
@@ -490,21 +519,47 @@ func deleteVertex(g *gx.G, v int) gx.G {
 
 var ms = []int{1, 2, 3, 4, 7}
 
+// quickPreds are the predicates of the quick tier.  "planar" is defined by graph.IsPlanar
+// (the subject of another property), so it is used in the thorough tier only.
+func predsFor(g *hx.Gen) []string {
+	if g.Thorough() {
+		return append(append([]string{}, gx.Preds...), gx.ExtremePreds...)
+	}
+	var ps []string
+	for _, p := range gx.Preds {
+		if p != "planar" {
+			ps = append(ps, p)
+		}
+	}
+	return append(ps, gx.ExtremePreds...)
+}
+
 func gen(g *hx.Gen) {
+	preds := predsFor(g)
 	for n := 6; n >= 0; n-- {
 		g.Emit(fmt.Sprintf("selftest %d", n))
 	}
 	nmax := g.Pick(8, 9)
+	if !g.Thorough() {
+		// a few cases one size up (about 3-5 s each), first for load balance
+		g.Emit("9 1 none -")
+		g.Emit("9 4 none -")
+		g.Emit("9 3 trifree pre")
+		g.Emit("9 2 k4free post")
+		g.Emit("9 7 clawfree post")
+		g.Emit("9 2 bipartite pre")
+		g.Emit("9 1 maxdeg3 both")
+	}
 	for n := nmax; n >= 0; n-- { // big cases first: better load balance over the workers
 		for _, m := range ms {
 			g.Emit(fmt.Sprintf("%d %d none -", n, m))
-			for _, p := range gx.Preds {
+			for _, p := range preds {
 				g.Emit(fmt.Sprintf("%d %d %s pre", n, m, p))
 				g.Emit(fmt.Sprintf("%d %d %s post", n, m, p))
 			}
 		}
 		// the same predicate in both places, and a few more moduli
-		for _, p := range gx.Preds {
+		for _, p := range preds {
 			g.Emit(fmt.Sprintf("%d 1 %s both", n, p))
 		}
 		for _, m := range []int{5, 6, 8, 11, 16} {
@@ -512,7 +567,7 @@ func gen(g *hx.Gen) {
 			g.Emit(fmt.Sprintf("%d %d trifree post", n, m))
 		}
 	}
-	g.Exhaustive(fmt.Sprintf("all (n,m,predicate,placement) with n<=%d, m in {1,2,3,4,7} (all shards a<m), predicate in none+%v, placement pre/post", nmax, gx.Preds))
+	g.Exhaustive(fmt.Sprintf("all (n,m,predicate,placement) with n<=%d, m in {1,2,3,4,7} (all shards a<m), predicate in none+%v, placement pre/post", nmax, preds))
 	if g.Thorough() {
 		g.Emit("10 1 none -")
 	}
